@@ -362,6 +362,10 @@ def cases(tier):
         lrs = logical_requests(ts, draw)
         idx = draw(st.lists(st.integers(0, len(lrs) - 1), min_size=1, max_size=14, unique=True))
         return {"ts": ts, "pos": pos, "lrs": [lrs[i] for i in sorted(idx)],
+                # the constrained member is declared by the PARENT class of the argument's class
+                "inh": pos in ("field", "attr") and draw(st.booleans()),
+                # XML families: the documented non-default option replace_null_with_default=False
+                "rnd": draw(st.sampled_from([True, True, False])),
                 "tns": "urn:c05x%08x" % draw(st.integers(0, 2 ** 32 - 1))}
     return one()
 
@@ -393,8 +397,14 @@ def build_app(case, fam, calls, validator="soft"):
     if pos == "arg":
         params, names = [T], ["a"]
     elif pos in ("field", "attr"):
-        C0 = ComplexModelMeta("C0", (ComplexModel,), {"__namespace__": tns,
-                                                       "_type_info": [("f", T), ("z", Integer)]})
+        if case.get("inh"):
+            P0 = ComplexModelMeta("P0", (ComplexModel,), {"__namespace__": tns,
+                                                           "_type_info": [("f", T)]})
+            C0 = ComplexModelMeta("C0", (P0,), {"__namespace__": tns,
+                                                "_type_info": [("z", Integer)]})
+        else:
+            C0 = ComplexModelMeta("C0", (ComplexModel,), {"__namespace__": tns,
+                                                           "_type_info": [("f", T), ("z", Integer)]})
         params, names = [C0], ["o"]
     else:
         params, names = [Array(T)], ["l"]
@@ -407,7 +417,10 @@ def build_app(case, fam, calls, validator="soft"):
     P = {"xml": XmlDocument, "soap11": Soap11, "json": JsonDocument, "yaml": YamlDocument,
          "msgpack": MessagePackDocument, "http": HttpRpc}[fam]
     outp = JsonDocument() if fam == "http" else P()
-    return Application([Svc], tns=tns, in_protocol=P(validator=validator), out_protocol=outp,
+    kw = {}
+    if fam in ("xml", "soap11") and case.get("rnd") is False:
+        kw["replace_null_with_default"] = False
+    return Application([Svc], tns=tns, in_protocol=P(validator=validator, **kw), out_protocol=outp,
                        name="C05App")
 
 
